@@ -99,11 +99,20 @@ void FeatureChecker::visitGuard(expression_t& guard)
     }
 }
 
+/** True if the assigned object is a hybrid clock, in both branches when it is chosen by a conditional. */
+static bool is_hybrid_target(const expression_t& target)
+{
+    if (target.get_kind() == Constants::INLINE_IF)
+        return is_hybrid_target(target.get(1)) && is_hybrid_target(target.get(2));
+    return target.get_type().is(Constants::HYBRID);
+}
+
 void FeatureChecker::visitAssignment(expression_t& ass)
 {
     switch (ass.get_kind()) {
     case Constants::ASSIGN:
-        if (ass.uses_fp() && !ass.uses_hybrid())
+        // only an assignment whose target is a hybrid clock whichever way it is evaluated is abstracted away
+        if (ass.uses_fp() && !is_hybrid_target(ass.get(0)))
             supported_methods.symbolic = false;
         break;
     case Constants::COMMA:
